@@ -90,6 +90,9 @@ def cases(draw):
         "shutdownOn": draw(st.lists(st.sampled_from(HOOKABLE), max_size=2, unique=True)),
         "hook": [draw(st.sampled_from(HOOK_OUTCOMES)) for _ in range(draw(st.integers(0, 8)))],
         "sched": draw(st.sampled_from(["fifo", "fifo", "lifo"])),
+        # a failed submission is raised by the task generator (local/simulator backends) or reported by an accepted
+        # task as its exit reason (LSF / Kubernetes backends)
+        "subfail_as_exit": draw(st.booleans()),
     }
 
 
@@ -151,6 +154,7 @@ def check(case, ctx: Ctx):
 
         drv = rtdriver.Driver(exp, PatternChooser(case["sched"]), {ref: list(case["reasons"])},
                               max_decisions=40000, max_items=400000, post_run=late_restart)
+        drv.backend.submission_failure_as_exit = bool(case.get("subfail_as_exit"))
         res = drv.run()
         hook_calls = []
         if case["hookPresent"]:
@@ -295,10 +299,119 @@ def check_observer(case, ctx: Ctx):
                    {"case": case, "observer_launches": obs, "final": res.states}, group="observer")
 
 
+# ----------------------------------------------------------------------------------------------------------
+# sub `engine`: Engine.restart()/kill() used directly (the anchor mechanism itself): a task exits, restart() is called,
+# kill() arrives at a generated moment (inside or after the launch delay of the restarted run), then restart() again.
+@st.composite
+def engine_cases(draw):
+    return {"first": draw(st.sampled_from(["ResourceExhausted", "ResourceExhausted", "SubmissionFailed", "KnownIssue"])),
+            "second": draw(st.sampled_from(["Success", "ResourceExhausted", "KnownIssue"])),
+            "kill_after": draw(st.sampled_from([0.0, 0.5, 2.0, 5.0, 5.9, 6.5, 8.0, 20.0])),
+            "again_after": draw(st.sampled_from([1.0, 12.0, 40.0])),
+            "maxRestarts": draw(st.sampled_from([None, None, 1, 5])),
+            "sched": draw(st.sampled_from(["fifo", "fifo", "lifo"]))}
+
+
+def check_engine(case, ctx: Ctx):
+    import datetime as _dt
+    import experiment.model.codes as codes
+    import experiment.runtime.backends as backends
+    import experiment.runtime.workflow as workflow
+    from ..rt import kernel as K
+    KERNEL = K.KERNEL
+    loc = ctx.mkdtemp()
+    K.new_case()
+    saved = dict(backends.backendGeneratorMap)
+    launches = []
+    try:
+        wa = {}
+        if case["maxRestarts"] is not None:
+            wa["maxRestarts"] = case["maxRestarts"]
+        comp = {"name": "Comp", "stage": 0, "command": {"executable": "echo", "arguments": "x"}}
+        if wa:
+            comp["workflowAttributes"] = wa
+        exp = pkg.experiment_from_flowir({"components": [comp]}, loc)
+        now = lambda: (KERNEL.clock - K.EPOCH).total_seconds()
+        backend = rtdriver.ScriptedBackend({"stage0.Comp": [case["first"], case["second"]]},
+                                           lambda ref, job, n, reason: launches.append((n, reason, now())))
+        backend.submission_failure_as_exit = True
+        for k_ in list(backends.backendGeneratorMap):
+            backends.backendGeneratorMap[k_] = backend
+        job = exp._stages[0].jobWithName("Comp")
+        cs = workflow.ComponentState(job, exp.experimentGraph, create_engine=True)
+        eng = cs.engine
+        chooser = PatternChooser(case["sched"])
+
+        def pump(seconds):
+            end = KERNEL.clock + _dt.timedelta(seconds=seconds)
+            for _ in range(400):
+                if KERNEL.clock >= end:
+                    break
+                KERNEL.drain(max_items=4000, horizon_s=max((end - KERNEL.clock).total_seconds(), 0.0), chooser=chooser)
+                nd = KERNEL.next_due()
+                if nd is None or nd > end:
+                    KERNEL.advance_to(end)
+            KERNEL.drain(max_items=4000, horizon_s=0.0, chooser=chooser)
+
+        eng.run()
+        pump(30.0)
+        if eng.isAlive() or len(launches) != 1:
+            ctx.rec.label("engine:inconclusive:first-task-did-not-end")
+            return
+        first_reason = eng.exitReason()
+        code = eng.restart()
+        desc = "case=%s first exit=%s restart code=%s" % (case, first_reason, code)
+        if code != codes.restartCodes["RestartInitiated"]:
+            ctx.rec.label("engine:first-restart:" + str(code))
+            pump(20.0)
+            if len(launches) != 1:
+                raise Violation("launch-after-refused-restart", "restart() returned %s but a task was launched: %s; %s" % (
+                    code, launches, desc))
+            return
+        pump(case["kill_after"])
+        launched_before_kill = len(launches)
+        alive_at_kill = eng.isAlive()
+        t_kill = now()
+        eng.kill()
+        pump(40.0)
+        after_kill = [l for l in launches[launched_before_kill:]]
+        desc += " kill at %.1f (alive=%s) launches=%s" % (t_kill, alive_at_kill, launches)
+        if eng.isAlive():
+            raise Violation("engine-alive-after-kill", desc)
+        if alive_at_kill and after_kill:
+            raise Violation("task-launched-after-kill", desc)
+        reason_after = eng.exitReason()
+        killed_before_relaunch = alive_at_kill and launched_before_kill == 1
+        if killed_before_relaunch and reason_after not in ("Killed", "Cancelled"):
+            raise Violation("killed-engine-reports-exit-reason-of-previous-task",
+                            "exit reason %s after a kill that prevented the restarted launch; %s" % (reason_after, desc))
+        n = len(launches)
+        try:
+            code2 = eng.restart()
+        except AssertionError:
+            code2 = "assert"
+        pump(case["again_after"] + 20.0)
+        if alive_at_kill and len(launches) > n:
+            raise Violation("relaunch-after-killed-or-cancelled",
+                            "restart() after the kill returned %s and started the task again; %s; launches now %s" % (
+                                code2, desc, launches))
+        ctx.rec.label("engine:kill-%s" % ("before-relaunch" if killed_before_relaunch else
+                                            "after-relaunch" if alive_at_kill else "after-death"),
+                      "engine:first=" + case["first"])
+        if alive_at_kill:
+            ctx.rec.nt(["c12eng", case], {"case": case, "launches": launches, "exit_after_kill": reason_after,
+                                          "second_restart": str(code2)}, group="engine")
+    finally:
+        backends.backendGeneratorMap.clear()
+        backends.backendGeneratorMap.update(saved)
+        shutil.rmtree(loc, ignore_errors=True)
+
+
 def shard(ctx: Ctx):
     explore(ctx, "policy", cases(), check, ctx.n(960, 40000), batch=60, shrink=True)
+    explore(ctx, "engine", engine_cases(), check_engine, ctx.n(240, 8000), batch=30)
     explore(ctx, "observer", observer_cases(), check_observer, ctx.n(320, 12000), batch=20, shrink=True)
 
 
 def replay(sub, case, ctx: Ctx):
-    {"policy": check, "observer": check_observer}[sub or "policy"](case, ctx)
+    {"policy": check, "observer": check_observer, "engine": check_engine}[sub or "policy"](case, ctx)
